@@ -1,6 +1,6 @@
 """Rule registry."""
-from . import calendar_mode, normalise
+from . import calendar_mode, normalise, eqhash, recurrence
 
 ALL_RULES = {}
-for _mod in (calendar_mode, normalise):
+for _mod in (calendar_mode, normalise, eqhash, recurrence):
     ALL_RULES.update(_mod.RULES)
